@@ -182,7 +182,10 @@ def run_case(case, ctx):
         ctx.check(float(x[0]) == t0 and float(x[-1]) == t1, "psth_span",
                   lambda: "x runs %r..%r, recording %r..%r" % (x[0], x[-1], t0, t1))
         w = np.diff(x)
-        ctx.check(bool(np.all(w > 0) and np.all(np.abs(w - w[0]) <= 1e-12 * max(1.0, abs(t1 - t0)))),
+        # equal up to the rounding of the edges themselves (one ulp of the largest |edge|
+        # per edge - matters for recordings far away from zero)
+        wtol = 1e-12 * max(1.0, abs(t1 - t0)) + 8 * float(np.spacing(np.max(np.abs(x))))
+        ctx.check(bool(np.all(w > 0) and np.all(np.abs(w - w[0]) <= wtol)),
                   "psth_bins_not_equal", lambda: "widths %r" % w.tolist())
         ratio = (Fr(t1) - Fr(t0)) / Fr(case["bin"])
         nb = len(y)
